@@ -69,6 +69,18 @@ func c08FullReg(ctx *build.Context, class string) (full reg.Register, view reg.R
 	return k, k
 }
 
+// c08PtrParam loads a pointer parameter with an explicit MOVQ (the plumbing of
+// the measurement functions does not go through Load/Store, which are under test).
+func c08PtrParam(ctx *build.Context, name string) (reg.Register, error) {
+	b, err := ctx.Param(name).Resolve()
+	if err != nil {
+		return nil, err
+	}
+	r := ctx.GP64()
+	ctx.MOVQ(b.Addr, r)
+	return r, nil
+}
+
 func c08MoveFull(ctx *build.Context, class string, src, dst operand.Op) {
 	switch class {
 	case "gp8l", "gp8h", "gp16", "gp32", "gp64":
@@ -104,12 +116,18 @@ func c08CPU(o *out, cases []*c08Case, wd, repo string) (map[string]any, error) {
 		if cs.dir == "load" {
 			ctx.Function(fmt.Sprintf("load%d", rw.idx))
 			ctx.SignatureExpr(fmt.Sprintf("func(a [%d]%s, pin *[64]byte, out *[64]byte)", rw.k, rw.gotyp))
-			pinp := ctx.Load(ctx.Param("pin"), ctx.GP64())
+			pinp, err := c08PtrParam(ctx, "pin")
+			if err != nil {
+				return nil, err
+			}
 			full, view := c08FullReg(ctx, cs.reg.class)
 			c08MoveFull(ctx, cs.reg.class, operand.Mem{Base: pinp}, full)
 			ctx.Comment("instruction under test: Load(a[0], " + cs.reg.class + ")")
 			ctx.Load(ctx.Param("a").Index(0), view)
-			outp := ctx.Load(ctx.Param("out"), ctx.GP64())
+			outp, err := c08PtrParam(ctx, "out")
+			if err != nil {
+				return nil, err
+			}
 			c08MoveFull(ctx, cs.reg.class, full, operand.Mem{Base: outp})
 			ctx.RET()
 		} else {
@@ -124,7 +142,10 @@ func c08CPU(o *out, cases []*c08Case, wd, repo string) (map[string]any, error) {
 				}
 				ctx.MOVQ(p, b.Addr)
 			}
-			pinp := ctx.Load(ctx.Param("pin"), ctx.GP64())
+			pinp, err := c08PtrParam(ctx, "pin")
+			if err != nil {
+				return nil, err
+			}
 			full, view := c08FullReg(ctx, cs.reg.class)
 			c08MoveFull(ctx, cs.reg.class, operand.Mem{Base: pinp}, full)
 			ctx.Comment("instruction under test: Store(" + cs.reg.class + ", r[0])")
